@@ -768,6 +768,52 @@ def check_batchinv(res, facts):
             rule.bad(key, "%d of %d write-backs into the slice do not depend on `coeff`: on that path the elements become v_i^-1 instead of coeff * v_i^-1 (e.g. a special case for short slices; with the parallel feature the serial kernel is called on chunks of any length)" % (sum(1 for s_ in stores if not s_[2]), len(stores)), f.loc)
 
 
+def check_batchinv_par(res, facts):
+    """the parallel batch_inversion_and_mul: every closure that writes elements of the slice either hands `coeff` to
+    the serial kernel or multiplies by it"""
+    rule = res.rule("R-BATCHCOEFF.par", "parallel batch_inversion_and_mul: every path that writes elements passes coeff on", 1)
+    fs = [f for f in facts.fns(unit="par", crate="ark_ff") if f.kind != "Closure" and f.id == "ark_ff::fields::batch_inversion_and_mul"]
+    key = "ark_ff|par|batch_inversion_and_mul"
+    if not fs:
+        rule.bad(key, "anchor missing")
+        return
+    f = fs[0]
+    clos = [c for c in facts.fns(unit="par", crate="ark_ff") if c.kind == "Closure" and (c.d.get("parent") or "").startswith(f.id)]
+    problems = []
+    n_ok = 0
+    for c in [f] + clos:
+        dep = DF.Dep(c)
+        calls = [t for _, t in c.calls()]
+        writes = []
+        for bi, si, st_ in c.stmts():
+            if "d" in st_:
+                l, projs = place_parts(st_["d"])
+                if projs and projs[0] == "*" and st_["r"]["k"] == "use":
+                    writes.append(op_local(st_["r"]["o"]))
+        kernel = [t for t in calls if t["f"].get("name") in ("serial_batch_inversion_and_mul", "batch_inversion_and_mul")]
+        if c is f:
+            # coeff (arg 2) must reach every for_each closure that the function spawns over the slice
+            for bb, t in c.calls():
+                if t["f"].get("name") == "for_each":
+                    env = DF.expr(c, t["args"][1], depth=12)
+                    if not (isinstance(env, tuple) and env[0] == "agg" and ("arg", 2, ()) in env[2]):
+                        problems.append("a worker closure over the slice does not receive coeff")
+                    else:
+                        n_ok += 1
+            continue
+        if kernel:
+            for t in kernel:
+                a1 = DF.expr(c, t["args"][1], depth=12) if len(t["args"]) > 1 else None
+                if not (isinstance(a1, tuple) and a1[0] == "arg" and a1[1] == 1):
+                    problems.append("the serial kernel is called with %s instead of the captured coeff" % (DF.show(a1) if a1 else None))
+                else:
+                    n_ok += 1
+        for src in writes:
+            if src is None or 1 not in dep.args_in_slice([src]):
+                problems.append("a worker writes elements computed without coeff (closure %s): for that input shape the result is v_i^-1, not coeff * v_i^-1 -- and the shape depends on the number of threads" % c.id.rsplit("::", 1)[-1])
+    (rule.bad if problems else rule.ok)(key, "; ".join(sorted(set(problems))) if problems else "%d worker path(s), all pass coeff to the kernel" % n_ok, f.loc)
+
+
 def run(ctx, res):
     facts = ctx.facts(UNITS)
     res.analysed = facts.stats()
@@ -782,6 +828,7 @@ def run(ctx, res):
     check_bytes(res, facts)
     check_unroll(res, facts)
     check_batchinv(res, facts)
+    check_batchinv_par(res, facts)
     res.notes.append("moduli analysed: %d (units %s); reduction helpers: %d; geq-predicates: %d" % (len(mods), UNITS, len(reducers), len(pinfo)))
     return {
         "level": "other",
